@@ -4,7 +4,7 @@
 //
 // stages
 //   honest : all registered solver ids + the 3 constrained solvers x function alphabet x x0 x epsilon x max_evals,
-//            thinned by the rule written in thinning() and recorded in the evidence (axis "thinning").
+//            thinned by the rule written in triples()/on_diagonal() and recorded in the evidence (axis "thinning").
 //   params : (thorough) every solver-specific parameter at both ends of its domain, one at a time.
 //   faults : mc::explore over "the k-th distinct queried point (k<=K, never x0) answers NaN / +inf / 1e300",
 //            remembered per point so that the wrapped object is still a function; only the honesty clauses apply.
@@ -12,7 +12,8 @@
 // The user function is always given to the solver through counting_function_t (an independent evaluation counter
 // that delegates to a private clone); every reported value is recomputed through another fresh clone.
 //
-// case encodings: "run:<index>" (honest), "par:<index>" (params), "F:<config index>|c0,c1,..." (faults)
+// case encodings: "run:<index>" (honest), "par:<index>" (params), "F:<config index>:<K>|c0,c1,..." (faults)
+// debugging a replay: C02_TRACE=1 echoes the solver's log, the case and the observation to stderr.
 #include "detrand.h"
 #include "mc.h"
 #include "verif.h"
@@ -595,7 +596,7 @@ std::vector<function_info_t> make_functions(const bool thorough)
 const double        RADII[3]     = {1e-3, 1.0, 10.0};
 const char* const   PATTERNS[3]  = {"ones", "alternating", "e1"};
 const double        EPSILONS[2]  = {1e-4, 1e-8};
-const tensor_size_t MAX_EVALS[4] = {10, 100, 1000, 5000};
+const tensor_size_t MAX_EVALS[5] = {10, 100, 1000, 5000, 300}; ///< the last one is used by stage params only
 
 vector_t make_x0(const tensor_size_t n, const int ix0)
 {
@@ -1496,7 +1497,7 @@ int main(int argc, char** argv)
         else
         {
             // parameter ends: functions of 2 and 4 dimensions from a fixed list, x0 = 1*ones and 10*alternating,
-            // both epsilons, max_evals 100 and 1000
+            // both epsilons, max_evals 100 and 300 (a bundle of up to max_size = 1000 planes makes larger budgets very slow)
             const std::vector<std::string> wanted = {"sphere[2D]", "rosenbrock[2D]", "hq-illcond[2D]", "hpwl-5[2D]", "maxq[4D]",
                                                      "kinks[4D]", "hq-tridiag[4D]", "hpwl-12[4D]", "qing[4D]", "mae+lasso[1][4D]"};
             for (size_t fi = 0; fi < w.functions.size(); ++fi)
@@ -1513,7 +1514,7 @@ int main(int argc, char** argv)
                         {
                             for (int ieps = 0; ieps < 2; ++ieps)
                             {
-                                for (const int ime : {1, 2})
+                                for (const int ime : {1, 4})
                                 {
                                     setup_t su;
                                     su.solver = static_cast<int>(si), su.func = static_cast<int>(fi);
@@ -1547,7 +1548,7 @@ int main(int argc, char** argv)
             r.axis("parameters", jstr("every registered parameter of the solver except solver::epsilon / solver::max_evals, one at a time at the lower and the upper "
                                       "end of its domain (closed end: the bound; open end: 1e-6 relative inside, 1e-30 next to 0; |value| clamped to 1e12; pairs: "
                                       "first component to the lower end / second to the upper end; enums: every other value) x 10 functions x 2 x0 x 2 epsilon x "
-                                      "max_evals {100, 1000}"));
+                                      "max_evals {100, 300}"));
         }
         const std::string tag = params ? "par" : "run";
         for_each_case(lat, r, tag,
